@@ -98,7 +98,7 @@ def byte_contra(ctx):
         ctx.anchor_missing('magic comparison fed by an individually tested byte')
 
 
-@rule('STREAM-RESET', ['C12'], floor=2)
+@rule('STREAM-RESET', ['C12'], floor=4)
 def stream_reset(ctx):
     """On the success path of the next-stream detector the per-stream state is re-initialised and
     the stream padding length is tested to be a multiple of four."""
@@ -154,6 +154,24 @@ def stream_reset(ctx):
         else:
             ctx.violation('%s:per-stream-state-reset' % f.key, f.loc(ob), 'per-stream state (header, block counter) is not '
                           're-initialised on the success path (only %s)' % names)
+    # sibling agreement: whatever the first-stream initialiser derives from the stream header and stores in the
+    # reader, the next-stream detector must store again (a cached check type, size limit, ...)
+    adt = F.adt('XZReader') or {}
+    hdr_fields = {fl['name'] for v in adt.get('variants', [])[:1] for fl in v['fields'] if 'StreamHeader' in fl['ty']}
+    mine = {name for bi, si, name, rv in self_field_stores(f)}
+    for g in ms:
+        if g is f or g.name == 'new':
+            continue
+        theirs = {name for bi, si, name, rv in self_field_stores(g)}
+        if not (theirs & hdr_fields):
+            continue
+        key = '%s:stores-what-%s-stores' % (f.key, g.name)
+        missing = sorted(theirs - mine)
+        if missing:
+            ctx.violation(key, g.loc(0), 'the first stream\'s initialiser %s stores %s, the next-stream detector does not store %s again: '
+                          'later streams of a concatenated file are decoded with the first stream\'s value' % (g.key, sorted(theirs), missing))
+        else:
+            ctx.ok(key, g.loc(0), 'every field %s sets from the stream header (%s) is set again for each further stream' % (g.key, sorted(theirs)))
     # "no further stream" exits: once padding bytes were counted, Ok(false) also needs padding % 4 == 0
     rem_blocks = []
     for sb in f.reachable:
@@ -1210,3 +1228,50 @@ def scan_to_zero(ctx):
                 ctx.ok(key, f.loc(h), 'every exit other than `%s == 0` ends in an error' % f.local_name(v))
     if n == 0:
         ctx.anchor_missing('backward container scan loop')
+
+
+# --------------------------------------------------------------------------- FILTER-ARG-PURE
+
+FILTER_CODECS = ('BCJWriter', 'DeltaWriter', 'BCJReader', 'DeltaReader')
+
+
+@rule('FILTER-ARG-PURE', ['C02'], floor=2)
+def filter_arg_pure(ctx):
+    """The parameter a container hands to a filter constructor (BCJ start offset, delta distance) is a function
+    of the filter's header-visible property only: writer and reader each rebuild the filter chain per block
+    from the block header, so any other input on one side (a running position, a block counter) makes the
+    two sides filter with different parameters from the second block on."""
+    F = ctx.facts
+    n = 0
+    for f in F.fns:
+        if f.kind == 'closure' or not f.self_adt or last_seg(f.self_adt).startswith(('BCJ', 'Delta')):
+            continue
+        sites = [(bi, t, c) for bi, t, c in f.calls()
+                 if c.self_adt and last_seg(c.self_adt) in FILTER_CODECS and c.name and c.name.startswith('new') and len(t['args']) >= 2]
+        if len(sites) < 2:
+            continue
+        prov = Prov(f)
+        own = last_seg(f.self_adt)
+        adt = F.adts.get(f.self_adt) or {}
+        # running counters / positions of the container itself (integer or Cell<integer> fields)
+        int_fields = {fl['name']: True for v in adt.get('variants', [])[:1] for fl in v['fields']
+                      if fl['ty'].replace('std::cell::Cell<', '').rstrip('>') in ('u8', 'u16', 'u32', 'u64', 'usize', 'i32', 'i64', 'isize')}
+        bad = []
+        for bi, t, c in sites:
+            for a in t['args'][1:]:
+                e = prov.operand(a, 0, '%d:T' % bi)
+                for x in expr_walk(e):
+                    if x[0] == 'field' and len(x) > 3 and x[3] == own and x[2] not in ('options',):
+                        sf = self_field_of(x)
+                        if sf and sf[0] != 'options' and int_fields.get(sf[0]):
+                            bad.append((bi, c.name, '.'.join(sf)))
+        n += 1
+        key = '%s:filter-parameters-from-header-only' % f.key
+        if bad:
+            ctx.violation(key, f.loc(bad[0][0]), 'the argument of %s (%d constructor site(s)) also depends on the container\'s own state `self.%s`: '
+                          'the other side builds the filter from the block header alone, so the two sides disagree after the first block' % (
+                              bad[0][1], len({b[0] for b in bad}), bad[0][2]))
+        else:
+            ctx.ok(key, f.loc(sites[0][0]), '%d filter constructor sites take only header-visible properties' % len(sites))
+    if n == 0:
+        ctx.anchor_missing('filter chain construction in the XZ writer / reader')
